@@ -197,6 +197,11 @@ def check(ctx):
     _formulas(ctx, repo)
 
     import sys
+    # the weighted crossing size counts the weights of the levels as they are after weight desugaring: a derived level rebuilt there
+    # must keep its weight (and window) -- the field-carry rule of C23, restricted to the level / factor classes
+    from . import C23 as _C23
+    _C23.rule_carry(ctx, R="C16.carry", only=lambda f_: f_.module.short == "primitive")
+
     mod = sys.modules[__name__]
     control(ctx, mod, "round min_trials after validation again",
             lambda s: variants.insert_first(
